@@ -1149,8 +1149,19 @@ def run(ctx):
         "PDB side of the comparison = PDB v3.3 ATOM/HETATM record written from auth_* identifiers (as the PDB archive does)",
     ]
 
+    # composition of the C10 (atom_site), C07 (ingest) and C08 (print) models: `pdb2pqr --clean` on mmCIF input
+    # end to end (Properties/E2E_CifClean.v), compared byte for byte with the real CLI on .cif and .pdb encodings
+    from harness.props import e2e_cifclean
+
+    e2e_cifclean.run_extra(ctx)
+
 
 def replay(ctx, data):
+    from harness.props import e2e_cifclean
+
+    r = e2e_cifclean.replay_extra(ctx, data)
+    if r is not None:
+        return r
     logging.getLogger("pdb2pqr").setLevel(logging.CRITICAL)
     case = data.get("case") or {}
     if case.get("kind") == "row":
